@@ -175,6 +175,42 @@ Definition canonicalize (fuel : nat) (src : segs) (rl : Z) (s : Ptr) : cout (lis
     end
   | _ => (KErr, rl)
   end.
+(* S1 (sub-word data sections): Canonicalize(l.Struct(i)) for an element of a 1-, 2- or 4-byte list.
+   The struct view has a data section that is not a whole number of words.  As found,
+   canonicalStructSize scanned whole words only (Uint64 of the partial word is out of bounds and
+   reads 0), so the data was dropped and the EMPTY struct came out.  Repaired ([fixsub]): a
+   non-zero byte in the partial last word makes the data section one more word (zero-extended by
+   fillCanonicalStruct, as writePtr copies such a struct).  Only the ROOT struct handed to
+   Canonicalize can be such a struct: children come from readPtr and composite-list elements,
+   whose data sections are whole words (CanonMInd.readPtr_aligned / readPtr_caligned), so the
+   other two call sites of canonicalStructSize never take this branch and keep the plain scan. *)
+Definition css_sub (fixsub : bool) (m : segs) (s : Ptr) (sz : ObjectSize) : res ObjectSize :=
+  let ds := DataSize (p_size s) in
+  let whole := ds / 8 * 8 in
+  if fixsub && p_valid s && negb (ds mod 8 =? 0) then
+    do b <- slice (seg_of m s) (p_off s + whole) (ds - whole);
+    if all_zero b then Ok sz else Ok (mkOS (whole + 8) (PointerCount sz))
+  else Ok sz.
+
+(* Canonicalize with the sub-word repair switch; [canonicalize] is [canonicalize2 false] *)
+Definition canonicalize2 (fixsub : bool) (fuel : nat) (src : segs) (rl : Z) (s : Ptr) : cout (list Z) * Z :=
+  match new_message ASingle [] 0 with
+  | Ok m0 =>
+    if negb (p_valid s) then (KOk (bs_data (get_seg m0 0)), rl) else
+    let w0 := mkW m0 src rl in
+    let r :=
+      kbind (of_res (do sz0 <- canonicalStructSize (cx_farnull fx) (cfg_strict c) src s; css_sub fixsub src s sz0)) (fun sz =>
+      kbind (of_res (lift w0 (newStruct m0 0 sz))) (fun wr =>
+      let '(w1, root) := wr in
+      kbind (of_res (set_root 4 w1 InDst root)) (fun w2 =>
+      kbind (of_res (set_root 4 w2 InDst root)) (fun w3 =>
+      fill_canonical fuel w3 root s)))) in
+    match r with
+    | KOk w => (KOk (bs_data (get_seg (w_dst w) 0)), w_src_rl w)
+    | KErr => (KErr, rl) | KPanic => (KPanic, rl) | KFuel => (KFuel, rl)
+    end
+  | _ => (KErr, rl)
+  end.
 End Canon.
 
 (* ------------------------------------------------------------------ the harness entry *)
@@ -185,6 +221,22 @@ Definition run_canon (fuel : nat) (c : config) (fx : cfix) (m : segs) (s : sel) 
   let '(rp, rl) := select c m (init_rlimit c) s in
   match rp with
   | Ok p => fst (canonicalize c fx fuel m rl (as_struct p))
+  | Err => KErr
+  | Panic => KPanic
+  end.
+
+(* Canonicalize(msg.field(i).List().Struct(j)): a list member as the struct to canonicalise *)
+Definition select_member (c : config) (m : segs) (rl : Z) (i j : Z) : res Ptr * Z :=
+  match select c m rl (SelField i) with
+  | (Ok l, rl2) => (list_struct true (as_list l) j, rl2)
+  | other => other
+  end.
+
+(* the run with the pointer already selected ([sp] = select or select_member) and the sub-word switch *)
+Definition run_canon_p (fixsub : bool) (fuel : nat) (c : config) (fx : cfix) (m : segs) (sp : res Ptr * Z) : cout (list Z) :=
+  let '(rp, rl) := sp in
+  match rp with
+  | Ok p => fst (canonicalize2 c fx fixsub fuel m rl (as_struct p))
   | Err => KErr
   | Panic => KPanic
   end.
